@@ -6,7 +6,7 @@
 (* followed by one or two render passes.                                   *)
 (***************************************************************************)
 EXTENDS TabularRender, Json, CSV
-CONSTANTS Shape, MaxCbs, MaxPasses, GenFile
+CONSTANTS Shape, MaxCbs, MaxPasses, RegTimes, RegTargets, GenFile
 VARIABLES st, hist, bi
 vars == <<st, hist, bi>>
 
@@ -20,20 +20,30 @@ Script ==
                               [op |-> "rowadd", r |-> 1, item |-> It("a")],
                               [op |-> "addrow", t |-> 1, r |-> 1],
                               [op |-> "rowadd", r |-> 1, item |-> It("late")] >>
+    [] Shape = "copy"   -> << [op |-> "rowitems", t |-> 1, items |-> <<It("a")>>],
+                              [op |-> "appendrow", t |-> 1],
+                              \* two by-value copies of cell (1,1), callbacks and properties included
+                              [op |-> "rowaddcell", r |-> 2, from |-> [kind |-> "cell", r |-> 1, c |-> 1]],
+                              [op |-> "rowaddcell", r |-> 2, from |-> [kind |-> "cell", r |-> 1, c |-> 1]] >>
     [] Shape = "full"   -> << [op |-> "headers", t |-> 1, items |-> <<It("h"), It("i")>>],
                               [op |-> "rowitems", t |-> 1, items |-> <<It("a"), It("b")>>],
                               [op |-> "sep", t |-> 1],
                               [op |-> "rowitems", t |-> 1, items |-> <<It("c")>>] >>
 
 T == st.tbl[1]
-Times == {"add", "pre", "render", "post"}
-Targets == {"itself", "cell", "row"}
+Times == RegTimes
+Targets == RegTargets
+CellRefs(rows, maxc) ==
+  UNION {{[kind |-> "cell", r |-> r, c |-> c] : c \in 1..Min2(maxc, Len(st.row[r].cells))} : r \in rows}
+
 OwnersNow ==
+  IF Shape = "copy" THEN CellRefs(DOMAIN st.row, 2)
+  ELSE
   {[kind |-> "table", t |-> 1], [kind |-> "foreign"]}
   \cup {[kind |-> "column", t |-> 1, n |-> n] : n \in 0..Min2(T.ncols, 1)}
   \cup {[kind |-> "row", r |-> r] : r \in {x \in DOMAIN st.row : x <= 2}}
-  \cup {[kind |-> "cell", r |-> r, c |-> 1] : r \in {x \in DOMAIN st.row : x = 1 /\ Len(st.row[x].cells) >= 1}}
-  \cup {[kind |-> "hcell", t |-> 1, c |-> 1] : x \in {1} \cap {y \in {1} : T.hdrp /\ Len(T.hdr) >= 1}}
+  \cup CellRefs({x \in DOMAIN st.row : x = 1}, 1)
+  \cup (IF T.hdrp /\ Len(T.hdr) >= 1 THEN {[kind |-> "hcell", t |-> 1, c |-> 1]} ELSE {})
 
 NPasses == Cardinality({i \in DOMAIN hist : hist[i].op = "rendercbs"})
 
